@@ -64,14 +64,25 @@ impl Mode {
                 let base_capstone_reg = mem.base;
                 let index_capstone_reg = mem.index;
 
+                // With an address-size override (67h) the base and index registers are narrower
+                // than the mode's address width: widen them, compute the address in the mode's
+                // width and wrap it to the effective address size below.
+                let widen = |expr: Expression| -> Result<Expression, Error> {
+                    if expr.bits() < self.bits() {
+                        Expr::zext(self.bits(), expr)
+                    } else {
+                        Ok(expr)
+                    }
+                };
+
                 let base = match base_capstone_reg {
                     x86_reg::X86_REG_INVALID => None,
-                    reg => Some(self.get_register_expression(reg, instruction)?),
+                    reg => Some(widen(self.get_register_expression(reg, instruction)?)?),
                 };
 
                 let index = match index_capstone_reg {
                     x86_reg::X86_REG_INVALID => None,
-                    reg => Some(self.get_register_expression(reg, instruction)?),
+                    reg => Some(widen(self.get_register_expression(reg, instruction)?)?),
                 };
 
                 let scale = Expr::constant(Constant::new(mem.scale as i64 as u64, self.bits()));
@@ -101,6 +112,17 @@ impl Mode {
                     }
                 } else {
                     expr_const(mem.disp as u64, self.bits())
+                };
+
+                // wrap to the effective address size (2, 4 or 8 bytes)
+                let address_bits = match instruction.detail.as_ref().map(|detail| &detail.arch) {
+                    Some(capstone::DetailsArch::X86(x86)) => x86.addr_size as usize * 8,
+                    _ => self.bits(),
+                };
+                let op = if address_bits != 0 && address_bits < self.bits() {
+                    Expr::zext(self.bits(), Expr::trun(address_bits, op)?)?
+                } else {
+                    op
                 };
 
                 match mem.segment {
